@@ -303,4 +303,20 @@ Definition reattach_init (rs : list rd) (ws : list wr) (n : nat) : qshared * lis
   ([[]], [QCopy QRead rs ws; QAttach n]).
 Definition reattach_run (rs : list rd) (ws : list wr) (n : nat) (sched : list nat) : qshared * list qthread :=
   run _ _ qstep (reattach_init rs ws n) sched.
+
+(* -------------------------------------------------------------------------------------------------
+   A coupled variant, kept only to be refuted: a Write TO an end waits while the opposite direction is parked in its Read
+   FROM that same end (what streamDataForwarderAdapter does if Write takes the mutex that Read holds across the blocking
+   ReadAvailable — seeded change C02-7).  Direction i writes to the end the opposite direction reads from. *)
+Definition at_read (t : bthread) : bool := match b_pc t with BRead => true | _ => false end.
+Definition at_write (t : bthread) : bool := match b_pc t with BWrite _ _ => true | _ => false end.
+Definition coupled_step (v : variant) (threshold : N) (lim : option N) (s : bshared * list bthread) (i : nat)
+  : bshared * list bthread :=
+  match nth_error (snd s) i, nth_error (snd s) (1 - i) with
+  | Some t, Some u => if at_write t && at_read u then s else sys_step _ _ (bstep v threshold lim) s i
+  | _, _ => sys_step _ _ (bstep v threshold lim) s i
+  end.
+Definition coupled_run (v : variant) (threshold : N) (lim : option N) (rs0 : list rd) (ws0 : list wr) (rs1 : list rd) (ws1 : list wr)
+  (sched : list nat) : bshared * list bthread :=
+  fold_left (coupled_step v threshold lim) sched (bridge_init rs0 ws0 rs1 ws1).
 Close Scope N_scope.
